@@ -28,7 +28,7 @@ man = {
     "setup_cmd": "./check setup",
     "hooks": meta["hooks"],
     "engines": [{"name": "lean-proof+correspondence", "path": "/verif/check", "serves_properties": [c["property_id"] for c in checks],
-                 "kind_free_text": "Lean 4 theorems about a hand-written executable model (lean/SemverModel, SemverSpec, SemverProofs) + differential correspondence check of the model against the crate (harness/, lean/Driver.lean) + spec-level oracles on the crate's answers"}],
+                 "kind_free_text": "Lean 4 theorems about an executable model of the crate (lean/SemverModel, SemverSpec, SemverProofs), tied to /repo's current source twice on every run: (1) a translator (translator/, rs2lean) regenerates Lean definitions from src/*.rs (lean/SemverGen/Extracted.lean) and the equivalence theorems of lean/SemverProofs/GenEquiv are re-checked - each generated definition is proved equal to the model definition the property theorems are about; (2) a differential correspondence check runs the model against the crate (harness/, lean/Driver.lean) with spec-level oracles on the crate's answers, which also searches for the concrete failing input when a proof obligation breaks"}],
     "checks": checks,
     "notes": meta["notes"],
     "not_applicable": na,
